@@ -96,7 +96,68 @@ PLANS['C12'] = {
     'level_text': 'C12 is a function over pairs of values; TLC enumerates all pairs of a finite universe exhaustively and proves transcription = declarative equality, and the real function is evaluated on exactly these pairs (both orders, three ownership-flag variants, NULL/invalid arguments) with results compared and arguments checked untouched.',
     'level_note': 'bounded universe (width <= 2, depth <= 2, 16 catalogue numbers incl. inf/nan/epsilon neighbours); NumEq table computed by tools/numcat.py; TLC and the driver are trusted',
 }
+# ------------------------------------------------------------------------------------------------ parser
+def parse_run(name, U, units, depth, edits=False, flavour='plain', failinject=False, timeout=2400):
+    return {'name': name, 'module': 'MC_Parse', 'mode': 'parse', 'flavour': flavour, 'view': 'View', 'invariants': ['InvCase'],
+            'constants': {'U': '"%s"' % U, 'MaxUnits': units, 'Edits': 'TRUE' if edits else 'FALSE', 'Emit': 'TRUE',
+                          'MaxDepth': depth, 'NestingLimit': depth},
+            'drvargs': '--numobs {outdir}/%s.numobs%s' % (name, ' --failinject' if failinject else ''), 'post': 'numobs', 'timeout': timeout}
+
+def parse_runs(tier):
+    if tier == 'quick':
+        return [parse_run('tok7', 'tok', 7, 4, flavour='limits'), parse_run('nest9', 'nest', 9, 4, flavour='limits'),
+                parse_run('str3', 'str', 3, 1000), parse_run('num6', 'num', 6, 1000),
+                parse_run('lit5', 'lit', 5, 1000), parse_run('ws4', 'ws', 4, 1000), parse_run('long4', 'long', 4, 1000),
+                parse_run('edit5', 'tok', 5, 1000, edits=True)]
+    return [parse_run('tok9', 'tok', 9, 4, flavour='limits'), parse_run('nest11', 'nest', 11, 4, flavour='limits'),
+            parse_run('str4', 'str', 4, 1000, timeout=5000), parse_run('num8', 'num', 8, 1000),
+            parse_run('lit6', 'lit', 6, 1000), parse_run('ws6', 'ws', 6, 1000), parse_run('long6', 'long', 6, 1000),
+            parse_run('edit7', 'tok', 7, 1000, edits=True, timeout=5000), parse_run('tok7plain', 'tok', 7, 1000)]
+
+PARSE_RULE = ('byte strings grown unit by unit (bytes or tokens) from every still-viable prefix, so the set is closed under truncation; universes: token '
+              'sequences, string-literal units (every escape, boundary \\u code points, surrogates, bad hex), number characters, literal letters, BOM/whitespace '
+              'bytes, 62-65 character numbers, every single-byte edit of every accepted text; each case is run through all parse entry points x '
+              '{termination required or not} x {exact-length buffer flush against an inaccessible page, buffer followed by junk, buffer with terminating zero}; '
+              'non-trivial = every case; distinct by construction (one TLC state per text)')
+PARSE_ASSUME = ['numeric values of number literals are judged by Python float() (correctly rounded, independent of glibc), not by TLC',
+                'out-of-bounds reads are observed through guard pages and read-only mappings; the specification proves its own reads in bounds',
+                'the nesting-limit logic is exercised in a build with -DCJSON_NESTING_LIMIT=4 (documented #ifndef knob) and at 999/1000/1001/100000 levels in the default build']
+PARSE_NOTE = 'bounded text length and alphabets per universe; L1 is the declarative grammar of JsonText.tla (RFC and lenient dialects); TLC, the driver and the Python number oracle are trusted'
+def parse_plan(what, tech):
+    return {'quick': parse_runs('quick'), 'thorough': parse_runs('thorough'), 'rule': PARSE_RULE, 'assumptions': PARSE_ASSUME,
+            'technique': tech, 'level_text': what, 'level_note': PARSE_NOTE}
+PLANS['C01'] = parse_plan('Every byte string of the truncation-closed universes is evaluated by the transcription of the parser, in which every byte access is an indexed read that TLC rejects when out of bounds, and is then parsed by the real code in buffers whose first byte outside the declared length is inaccessible, in read-only memory, followed by walk/print/delete and an exact allocation census.',
+                          'TLC enumerates truncation-closed byte-string universes through ParseMachine.tla (bounds of every read checked by TLC); each case replayed through all entry points on guard-page / read-only buffers with allocation census')
+PLANS['C02'] = parse_plan('For every enumerated text that the declarative RFC 8259 grammar accepts (within the documented limits) TLC proves the transcription accepts it with exactly the denoted value, and the real parser must return exactly that tree from all entry points; number values are checked against a correctly rounded oracle.',
+                          'TLC checks ParseMachine.tla against the declarative grammar JsonText.tla (must-accept class, exact decoded value) on enumerated universes; real parser results compared node by node, numbers against Python float()')
+PLANS['C03'] = parse_plan('For every enumerated text on which even the lenient declarative grammar finds no value (and every single-byte corruption of every accepted text), TLC proves the transcription rejects it, and the real parser must return NULL from all entry points with nothing left allocated; deep nesting is run on a small stack.',
+                          'TLC checks ParseMachine.tla against the lenient declarative grammar (must-reject class) on enumerated universes incl. all single-byte edits of accepted texts; real parser must reject with zero allocation balance')
+PLANS['C10'] = parse_plan('The parse-end, error-position and termination clauses are asserted by TLC on the transcription for every enumerated buffer and flag, and checked on the real calls: end inside the buffer and prefix re-parses to an equal tree, termination success only before a zero byte, error pointer equal to the global one and inside the buffer, NULL after success.',
+                          'TLC asserts the end/error/termination clauses on ParseMachine.tla for every enumerated buffer x flag; real calls checked for pointer bounds, prefix re-parse, termination rule, global error pointer')
 NOT_CLAIMED = {}
+
+
+def numobs_check(prop, path, outdir):
+    """number literals the real parser converted: lexeme, bits of valuedouble, valueint -- judged by Python's float()"""
+    import struct
+    out = []
+    try:
+        lines = open(path).read().splitlines()
+    except OSError:
+        return ''
+    bad = 0
+    for l in lines:
+        lex, bits, iv = l.split('\t')
+        d = float(lex)
+        eb = struct.unpack('<Q', struct.pack('<d', d))[0]
+        ei = 2147483647 if d >= 2147483647 else (-2147483648 if d <= -2147483648 else int(d))
+        if eb != int(bits, 16) or ei != int(iv):
+            bad += 1
+            if prop == 'C02' and bad <= 5:
+                rp = os.path.join(outdir, 'C02-num-%d.case' % bad)
+                open(rp, 'w').write('# number literal %s: parsed to bits %s valueint %s, correctly rounded is %016x valueint %d\n' % (lex, bits, iv, eb, ei))
+                out.append('VIOLATION property=C02 replay=%s :: number literal %s decoded to %s (int %s), expected %016x (int %d)' % (rp, lex, bits, iv, eb, ei))
+    return '\n'.join(out) + ('\n' if out else '')
 
 
 def run_custom(kind, prop, run, outdir, bins, seed, V, REPO):
